@@ -24,9 +24,11 @@ type G struct {
 	State   string   // "select", "chan receive", "running", ...
 	Frames  []string // "pkg.func file.go:123", innermost first
 	Created string
+	WaitMin int // minutes the runtime reports the goroutine as continuously blocked (0 = less than one)
 }
 
 var hdrRe = regexp.MustCompile(`^goroutine (\d+) \[([^\],]+)(?:, [^\]]*)?\]:$`)
+var waitRe = regexp.MustCompile(`, (\d+) minutes`)
 
 // DumpAll returns the stacks of all goroutines.
 func DumpAll() string {
@@ -67,6 +69,9 @@ func ParseDump(s string) map[int]*G {
 		}
 		id, _ := strconv.Atoi(m[1])
 		g := &G{ID: id, State: m[2]}
+		if wm := waitRe.FindStringSubmatch(lines[0]); wm != nil {
+			g.WaitMin, _ = strconv.Atoi(wm[1])
+		}
 		for i := 1; i < len(lines); i++ {
 			l := lines[i]
 			if strings.HasPrefix(l, "\t") {
